@@ -138,7 +138,7 @@ func c12Judge(r *verifkit.R, phase string, ci int, res *convResult) {
 	}
 	r.Add("cases_"+res.Class, 1)
 	r.Eval(res.Class+"|"+res.Desc+"|"+res.TraceHash(), multihop > 0)
-	if vio == 0 && multihop > 0 && r.NeedSample() {
+	if multihop > 0 && r.NeedSample() {
 		var tables []string
 		for x := 0; x < s.N; x++ {
 			for _, l := range s.Learned(x) {
